@@ -159,6 +159,22 @@ func famRangeInstant(sc *scn.Scenario, em func(vt.Ev)) {
 		t := sc.Start + i*sc.Step
 		obs(t, projectAt(full.C, sc.Ms(t)), "range")
 	}
+	// "... and no other points are returned": the points of the range result that lie on no grid
+	// step (before the start, after the end, between two steps) - the grid itself has none
+	off := Obs{Elems: map[string]float64{}}
+	for _, s := range full.C.Series {
+		for _, p := range s.Pts {
+			d := p.T - sc.Ms(sc.Start)
+			if d < 0 || p.T > sc.Ms(sc.End) || d%sc.Ms(sc.Step) != 0 {
+				off.Elems[fmt.Sprintf("%s@%d", run.LsString(s.LS), p.T)] = 1
+			}
+		}
+	}
+	offKey := func(o Obs, src string) {
+		em(vt.Ev{"ev": "obs", "key": "points off the grid", "cls": cl.class("offgrid", o), "src": src, "desc": o.String()})
+	}
+	offKey(Obs{Elems: map[string]float64{}}, "grid")
+	offKey(off, "range")
 	// instant queries
 	pick := map[int64]bool{}
 	if n <= 12 {
